@@ -32,8 +32,8 @@ def mc_run(c, maxlen, prefix, timeout, workers=NCPU):
     return st
 
 
-def gen_bfs(c, maxlen, prefix, timeout):
-    cfg = cfg_text("Spec", dict(c, MaxLen=maxlen), subst={"Prefix": prefix}, view="View", action_constraints=["Emit"])
+def gen_bfs(c, maxlen, prefix, timeout, view="View"):
+    cfg = cfg_text("Spec", dict(c, MaxLen=maxlen), subst={"Prefix": prefix}, view=view, action_constraints=["Emit"])
     code, out = run_tlc("CoreMC.tla", cfg, timeout=timeout, workers=1, heap="8g")
     if not tlc_ok(code, out):
         raise Inconclusive("generator run failed:\n" + out[-3000:])
@@ -214,7 +214,8 @@ def run(prop, tier, seed, P, replay=None):
         behs, topo, gen_trans = [], None, 0
         for g in T["gen"]:
             c = consts(peers=g.get("peers", ("p1", "p2")), acts=g["acts"], rich=g.get("rich", ()), maxval=g.get("maxval", 1))
-            topo, b, st = gen_bfs(c, g["maxlen"], g.get("prefix", "PrefixNone"), timeout=T.get("gen_timeout", 900))
+            topo, b, st = gen_bfs(c, g["maxlen"], g.get("prefix", "PrefixNone"), timeout=T.get("gen_timeout", 900), view=g.get("view", "View"))
+            log("[%s] generator %s maxlen %d view %s: %d behaviours" % (prop, g["acts"], g["maxlen"], g.get("view", "View"), len(b)))
             gen_trans += len(b)
             behs += b
         nbfs = len(behs)
